@@ -2,6 +2,15 @@
 """Prints the brief handed to a fresh mutation sub-agent for one property (only the property text and a scratch worktree)."""
 import json, sys
 pid = sys.argv[1]; wt = sys.argv[2]
+# round 2: titles of the changes already collected for this property (so that new ones differ)
+import glob, os
+tried = []
+for m in sorted(glob.glob('/verif/seeded/%s-m*/meta.json' % pid)):
+    try:
+        tried.append(json.load(open(m)).get('title', ''))
+    except Exception:
+        pass
+first = 1 + len(tried)
 p = [json.loads(l) for l in open('/verif/properties.jsonl') if l.strip()]
 p = [x for x in p if x['id'] == pid][0]
 print(f"""You are helping to evaluate a verification effort by playing the role of a developer who introduces a realistic regression.
@@ -17,14 +26,14 @@ The semantic property under study (this is all you get; it is stated over ALL in
 
 {json.dumps({k: p[k] for k in ('id','title','statement','quantifier','why_tests_cant','anchors')}, indent=1)}
 
-Your task: produce TWO independent source changes (different mechanisms / different anchors if possible), each of which
+""" + ("Other developers already produced the following changes for this property; yours must differ from them in mechanism (a different function, or a different clause of the property):\n" + "\n".join("  - " + t for t in tried) + "\n\n" if tried else "") + f"""Your task: produce TWO independent source changes (different mechanisms / different anchors if possible), each of which
   * is the kind of change a developer could plausibly make (a refactoring slip, an off-by-one, a dropped condition, a wrong default, a reordered step, an "optimisation") -- not sabotage such as special-casing a magic constant, and not a crash on every input;
   * makes the property FALSE for some inputs, but needs something specific to manifest (a particular nesting, size, order, history, schedule ...), so ordinary use still looks fine;
   * still compiles and still passes all 41 existing tests (verify it; tests must not be edited);
   * comes with a demonstration: a concrete input (SQF script / file / command sequence) and the observable behaviour on the unmodified worktree vs. with your change, showing the property's statement being violated.
 Keep each change small (a few lines). Each change is made against the pristine worktree (undo the first with `git checkout -- .` before making the second).
 
-Deliver, for i in 1,2, a directory {wt}/_seed/m<i>/ containing:
+Deliver, for i in {first},{first + 1}, a directory {wt}/_seed/m<i>/ containing:
   patch.diff   -- `git diff` of the change against the pristine worktree (must apply with `git apply` to a pristine checkout)
   demo.sh      -- a shell script that, run from a checkout's root after building into _build, shows the misbehaviour (prints what is observed); keep inputs in this directory and reference them relative to the script
   demo.md      -- what the change is, which clause of the property it breaks, the input needed to see it, expected vs. observed output on both the pristine and the changed tree
